@@ -5,6 +5,8 @@ CONSTANTS
   Gs = {0, 1, 2, 4}
   Q = 4
   PDen = 4
+  Shifts <- MCShiftsQ
 INVARIANT DumpCase
+INVARIANT ShiftCovariant
 VIEW core
 CHECK_DEADLOCK FALSE
